@@ -8,7 +8,12 @@ package proxy
 //@ func NewHeader(client net.Addr, remote net.Addr) (h *Header)
 //@   ensures h != nil && fresh(h)
 
+// Write itself: no input makes it panic (the six fields are only indexed after the field count
+// has been checked), it reports at most the bytes it was given, and it accepts a preamble
+// only after filling in both addresses. (What strings.Split / bytes.Contains compute is the
+// library's business.)
 //@ func (h *Header) Write(b []byte) (n int, err error)
-//@   unverified string splitting (bytes.Contains / strings.Split); only the error result is used by the reader
 //@   requires h != nil
 //@   modifies h.client, h.remote
+//@   ensures 0 <= n && n <= len(b)
+//@   ensures err == nil ==> (h.client != nil && h.remote != nil)
